@@ -206,6 +206,54 @@ def case_random_block(case):
             sa = arr.convert(mk_sys(U, A))
             if sa.value.tobytes() != np.array(vals, dtype=float).tobytes():
                 bad.append({"what": "array same-system conversion is not the identity", "A": A})
+            # arrays built from items that each carry their own units: every item is converted with ITS factor
+            items, exact_items = [], []
+            for _ in range(r.randint(2, 4)):
+                Si = r.choice(si.ALL_SYSTEMS)
+                xi = r.uniform(-5, 5) * 10 ** r.randint(-2, 2)
+                form = r.choice(["uv", "str", "num"])
+                if form == "uv":
+                    items.append(U.UnitValue(xi, U.Units(mk_sys(U, Si), mk_dim(U, d3))))
+                    exact_items.append(Fr(xi) * si.factor(Si, A, d3))
+                elif form == "str" and any(d3):
+                    items.append("%r %s" % (xi, si.unit_string(Si, d3)))
+                    # a unit string only fixes the bases with a non-zero exponent
+                    exact_items.append(Fr(xi) * si.factor(tuple(Si[k] if d3[k] else si.DEFAULT_SYS[k] for k in range(3)), A, d3))
+                else:
+                    items.append(xi)
+                    exact_items.append(Fr(xi))
+            if any(isinstance(it, str) for it in items) and not all(isinstance(it, str) for it in items):
+                items = [it for it in items if not isinstance(it, str)] or [1.0]      # numpy cannot hold mixed str/number lists
+                exact_items = None
+            if exact_items is not None and not all(isinstance(it, str) for it in items):
+                ma = U.UnitArray(items, U.Units(mk_sys(U, A), mk_dim(U, d3)))
+                stats["mixed_item_arrays"] = stats.get("mixed_item_arrays", 0) + 1
+                for y, ex in zip(ma.value, exact_items):
+                    if not close(float(y), ex):
+                        bad.append({"what": "array built from items with their own units: an item was not converted with its own factor",
+                                    "A": A, "dim": d3, "got": float(y), "expected": float(ex)})
+                        break
+            # convert - modify an element in place - convert again (the second conversion must see the new element)
+            ua = U.UnitArray(list(vals), U.Units(mk_sys(U, A), mk_dim(U, d3)))
+            tgt2 = r.choice([mk_sys(U, B), si.sys_dict(B), U.Units(mk_sys(U, B), mk_dim(U, d3))])
+            ua.convert(tgt2)
+            newv = list(vals)
+            k_ = r.randrange(len(newv))
+            how = r.choice(["set_at", "index", "set_value"])
+            newv[k_] = r.uniform(-7, 7)
+            if how == "set_at":
+                ua.set_at(k_, U.UnitValue(newv[k_], U.Units(mk_sys(U, A), mk_dim(U, d3))))
+            elif how == "index":
+                ua.value[k_] = newv[k_]
+            else:
+                ua.set_value(newv)
+            c2 = ua.convert(tgt2)
+            stats["convert_modify_convert"] = stats.get("convert_modify_convert", 0) + 1
+            for x, y in zip(newv, c2.value):
+                if not close(float(y), Fr(x) * si.factor(A, B, d3)):
+                    bad.append({"what": "conversion after an in-place element change returns stale values", "how": how, "A": A, "B": B,
+                                "dim": d3, "x": x, "got": float(y)})
+                    break
             # convert_value, the functional form
             cv = U.convert_value(val, mk_sys(U, A), mk_sys(U, B), mk_dim(U, d3))
             if not close(cv, exactB):
